@@ -185,6 +185,17 @@ theorem string_parsers_agree_on_class (cl : Str → Nat) (ts : List (Tok Seq Str
     (fun s q h => (consumers_agree_on_class s q h).1) ts {} hc
     (parseToks_no_error parseSGR (fun s q h => intSgr_ok parseCfg s q h) ts {} hne)
 
+-- non-vacuity: a string with a complete legacy form after another parameter, an unknown code and an ignored form (evaluated)
+example : Good (fun _ => 1) [.sgr [[1], [38], [5], [200]], .text [0x61], .sgr [[6], [38, 2, 1, 2]], .text [0x62]] ∧
+    [[[1], [38], [5], [200]], [[6], [38, 2, 1, 2]]].all agreeClass = true :=
+  ⟨⟨by intro p hp; simp at hp; rcases hp with h | h | h | h <;> subst h <;> constructor <;> simp,
+    ⟨0x61, [], rfl, by decide⟩, rfl,
+    by intro p hp; simp at hp; rcases hp with h | h <;> subst h <;> constructor <;> simp,
+    ⟨0x62, [], rfl, by decide⟩, rfl, trivial⟩, by decide⟩
+example : (match parseStyledB (fun _ => 1) (bytesOfToks [.sgr [[1], [38], [5], [200]], .text [0x61], .sgr [[6], [38, 2, 1, 2]], .text [0x62]]),
+      newStyledStringB (fun _ => 1) {} (bytesOfToks [.sgr [[1], [38], [5], [200]], .text [0x61], .sgr [[6], [38, 2, 1, 2]], .text [0x62]]) with
+    | .ok a, .ok b => decide (a = b ∧ a.length = 2) | _, _ => false) = true := by decide +kernel
+
 /-! Two more ways of disagreeing that exist only at the byte level (the `[][]int` consumers never see the text):
     8. numerals that are not canonical — `ESC[01;34m`, what `ls --color` writes: bold blue for `ParseStyledString`, only blue for
        `NewStyledString` (its `case "1"` is a string comparison);
